@@ -13,6 +13,7 @@ Inductive invariant proof over the SpectralInformation API:
                   computed from the RAW figures, so the identity survives update_snr (shared with C13-R2)
  Rm memo          : every memoisation construct in the functions behind this property is keyed by everything it reads.
  Rp presence      : optional numeric fields are tested with `is None` / membership, never by truthiness (0 is a value).
+ R7 NLI sign      : the NLI spreading over channels uses sign-preserving operations only (shared with C02-R5).
 """
 import ast
 
@@ -386,6 +387,14 @@ def r6_published(ctx):
 
 
 
+def r7_nli_sign(ctx):
+    """R7: the NLI handed to add_nli is never negative by construction of its spreading over the channels (sign-preserving
+    operations only, no extrapolation; shared with C02-R5): a negative NLI share would push the signal share above 1"""
+    from .c02 import r5_nli_interp
+    from .common import proxy
+    r5_nli_interp(proxy(ctx, 'R7', needs=True))
+
+
 from ..memo import rule_for as _memo_rule
 
 RULES_MEMO = ('Rm.memo', _memo_rule('C01', 'a stale share or GSNR would be reported after the spectrum was updated'))
@@ -395,7 +404,7 @@ from ..presence import rule_for as _presence_rule
 
 RULES_PRESENCE = ('Rp.presence', _presence_rule('C01', 'a legal zero would be read as missing'))
 
-RULES = [('R6.published-figures', r6_published), ('R5.split-merge', r5_split_merge), ('R1.ownership', r1_ownership), ('R2.base', r2_base), ('R3.step', r3_step), ('R4.reported', r4_reported), RULES_MEMO, RULES_PRESENCE]
+RULES = [('R6.published-figures', r6_published), ('R5.split-merge', r5_split_merge), ('R1.ownership', r1_ownership), ('R2.base', r2_base), ('R3.step', r3_step), ('R4.reported', r4_reported), RULES_MEMO, RULES_PRESENCE, ('R7.nli-sign', r7_nli_sign)]
 
 
 def proof_keys(ctx):
